@@ -1809,6 +1809,15 @@ func (s *BgpServer) handleFSMMessage(peer *peer, e *fsmMsg) {
 				peer.fsm.gConf.Config.RouterId, conf.Transport.State.RemoteAddress, conf.Transport.State.LocalAddress)
 			peer.peerInfo.Store(peerInfo)
 
+			// Publish the established state before the initial table transfer.
+			// A route change that is propagated concurrently waits for the
+			// transfer (routeRefreshInProgress) and is then only sent to peers
+			// that needToAdvertise() reports as established: if the state were
+			// published after this callback returns, such a change would be in
+			// neither the transfer nor the update stream and the route would be
+			// missing at the peer until it changes again.
+			peer.fsm.state.Store(nextState)
+
 			neighborAddress := conf.State.NeighborAddress
 			deferralExpiredFunc := func(family bgp.Family, deferralTime time.Duration) func() {
 				//nolint: errcheck // ignore error
